@@ -406,6 +406,10 @@ func runC12(c *core.Ctx) {
 					return false
 				}
 				if !isLen(as.Rhs[0], 2) {
+					// a sentinel the loop minimises away: an initial value that no code length exceeds
+					if k, isK := core.IntConst(info, as.Rhs[0]); isK && k >= 4 && as.Tok == token.DEFINE && !g.InLoop(g.MustVertexOf(as)) {
+						continue
+					}
 					o.FailAt(fn.Site(as, ""), "the result is assigned %s, which is not a range length", core.ExprStr(as.Rhs[0]))
 				}
 				// an update inside the loop must be guarded by a '<' comparison against the current minimum
@@ -428,6 +432,76 @@ func runC12(c *core.Ctx) {
 		// all ranges are considered: a loop over csr (or csr[1:])
 		heads := loopHeads(g)
 		o.Require(len(heads) == 1 && heads[0].Cond.Range != nil && strings.HasPrefix(core.ExprStr(heads[0].Cond.Range.X), "csr"), "minLength does not iterate over all ranges")
+		// ... and the scan is not left before its end
+		if len(heads) == 1 {
+			head := heads[0]
+			body := succ(head, core.EdgeTrue)
+			if body != nil {
+				inLoop := map[*core.V]bool{head: true}
+				for v := range g.ReachPlain(body, true, core.AvoidVs(head)) {
+					if g.ReachPlain(v, false, nil)[head] {
+						inLoop[v] = true
+					}
+				}
+				for u := range inLoop {
+					if u == head {
+						continue
+					}
+					for _, e := range u.Succs {
+						if inLoop[e.To] {
+							continue
+						}
+						site := u.AST
+						if site == nil {
+							site = head.AST
+						}
+						// stopping because the minimum found so far is still large can never be
+						// right (a later range may be shorter); stopping because it is small
+						// enough depends on what it is compared with
+						large := false
+						for _, bv := range g.BranchVertices() {
+							if bv.Cond.Expr == nil || !inLoop[bv] || !g.Dominates(bv, u) {
+								continue
+							}
+							for _, l := range []core.EdgeLabel{core.EdgeTrue, core.EdgeFalse} {
+								if !g.EdgeDominates(u, core.EdgeRef{From: bv, Label: l}) && bv != u {
+									continue
+								}
+								if bv == u && l != e.Label {
+									continue
+								}
+								for _, a := range bv.Implied(l) {
+									cmp, isCmp := a.AsCmp()
+									if !isCmp {
+										continue
+									}
+									lo, ro := core.ObjOf(info, cmp.L), core.ObjOf(info, cmp.R)
+									isMin := func(ob types.Object) bool {
+										if ob == nil {
+											return false
+										}
+										for _, r := range g.Returns() {
+											if rs, ok := r.AST.(*ast.ReturnStmt); ok && len(rs.Results) == 1 && core.ObjOf(info, rs.Results[0]) == ob {
+												return true
+											}
+										}
+										return false
+									}
+									if (isMin(lo) && (cmp.Op == token.GEQ || cmp.Op == token.GTR)) || (isMin(ro) && (cmp.Op == token.LEQ || cmp.Op == token.LSS)) {
+										large = true
+									}
+								}
+							}
+						}
+						if large {
+							o.FailAt(fn.Site(site, ""), "the scan over the ranges is left while the minimum found so far is still at or above some bound: a later range may be shorter, and an invalid code then consumes more bytes than the shortest code has")
+						} else {
+							o.Unrec("%s: the scan over the ranges can be left before its end; whether the ranges not looked at can be shorter is not decided", c.Prog.Pos(site.Pos()))
+						}
+					}
+				}
+			}
+		}
 	})
 	c.Check("C12-R6", pkg+".canMerge/both-bounds", "two ranges agree in a byte position only if both their lower and their upper bounds agree: wherever canMerge tests the upper bounds of its two arguments for equality it tests the lower bounds as well (otherwise ranges with different lower bounds are reported merged and CodeSpaceRange() describes codes the codec rejects)", func(o *core.Ob) {
 		fn := c.Prog.Func(pkg, "canMerge")
